@@ -21,8 +21,8 @@ func init() {
 		assumeSite("C06-CELL", e[0], e[1])
 	}
 	register(&PropDef{
-		ID:       "C06",
-		Patterns: []string{"./data", "./node", "./runtime", "./std/..."},
+		ID:          "C06",
+		Patterns:    []string{"./data", "./node", "./runtime", "./std/..."},
 		Explanation: "Assignment copies an array shallowly: CloneArrayValue copies the slot slice and shares the *ZVal cells. Two disciplines are then necessary for value semantics and both are visible in the code: (CELL) nothing writes the Value of a cell that was taken from an array's slot list unless the write is guarded by RefSlotCount > 0 (an explicit & binding) — stores replace the cell instead; (SINK) every function that places a value into a variable slot, a property, or an array element copies an *ArrayValue first (CloneArrayValue), and clone copies own properties through such a sink. Nested arrays (the inner array object is still shared by a shallow copy), in-place sort/push internals and reference semantics are not decided.",
 		Assumptions: []string{
 			"a cell is 'from a slot list' when it is X.List[i], a range value over X.List, or the result of FindSlotByIntKey, for X of type *data.ArrayValue; cells obtained from a Context are variable slots",
